@@ -26,6 +26,7 @@ type mutant struct {
 	ReplaceAll bool     `json:"replace_all"` // replace every occurrence of Old (benign renames)
 	Props      []string `json:"props"`       // benign refactorings: the properties whose checks must stay silent
 	Expect     string   `json:"expect_rule"` // substring of the rule id expected in the report
+	Arch       string   `json:"arch"`        // GOARCH under which the rules are run on the mutated tree (default: the host's)
 	Note       string   `json:"note"`
 }
 
@@ -105,6 +106,9 @@ func runSensitivity(r *Report) {
 		os.WriteFile(target, []byte(mutated), 0o644)
 		cmd := exec.Command(exe, "check", "-property", r.Property, "-tier", "quick", "-repo", scratch, "-no-evidence")
 		cmd.Env = append(os.Environ(), "VERIF_DIR="+verifDir())
+		if m.Arch != "" {
+			cmd.Env = append(cmd.Env, "DEPSCHECK_ARCH="+m.Arch)
+		}
 		out, _ := cmd.CombinedOutput()
 		os.WriteFile(target, orig, 0o644)
 		text := string(out)
